@@ -3,7 +3,7 @@
    `replayable`, `tree`), Model/Writer.v (ReportWriter, `aggregate`), Model/StreamOk.v (the stream grammar), Model/Events.v. *)
 From Coq Require Import List NArith ZArith Bool.
 Import ListNotations.
-From LCC Require Import Base.Util Model.Report Model.Events Model.Writer Model.Replay Model.StreamOk Proofs.ReplayP Proofs.StreamP.
+From LCC Require Import Base.Util Model.Report Model.Events Model.Writer Model.Replay Model.StreamOk Proofs.ReplayP Proofs.StreamP Proofs.StreamFinP.
 
 (* For every report a ReportWriter can have produced (Replay.replayable: finished or not — results, steps, suites and the report
    itself may lack an end time, several steps of one result may be open at once), whatever time.time() returns during the replay
@@ -31,6 +31,16 @@ Theorem C18_sequential : forall (now : Z) (th : tid) (r : report), replayable r 
 Proof. exact replay_sequential. Qed.
 Print Assumptions C18_sequential.
 
+(* When nothing in the report is in progress (Replay.finished: the report, every suite, every started result and every step
+   has an end time) the replayed stream satisfies the grammar with EVERY bracket closed (StreamOk.finished_replay_mode: as a live
+   run, except that empty steps may occur): at a result's End no step is open, at SuiteTeardownStart the setup and every test of
+   the suite are over, at SuiteEnd everything below the suite is over, at SessionTeardownStart / SessionEnd every suite is over,
+   and the stream ends with SessionEnd. *)
+Theorem C18_stream_ok_finished : forall (now : Z) (th : tid) (r : report), replayable r = true -> finished r = true ->
+  sequential_ok finished_replay_mode (fst (replay_report_events now th r)) = true.
+Proof. exact replay_sequential_finished. Qed.
+Print Assumptions C18_stream_ok_finished.
+
 (* F10: the same statement is false of replay.py as it was before fixes/F10 (StepEndEvent fired unconditionally, its
    event_time=None replaced by time.time()): an in-progress test with an open step comes back with the step ended. *)
 Definition f10_witness : report :=
@@ -49,4 +59,19 @@ Example C18_witness_fixed :
   replayable f10_witness = true /\
   res_eqb report_eqb (aggregate (fst (replay_report_events 9999%Z 1%Z f10_witness))) (Ok (tree f10_witness)) = true /\
   sequential_ok replay_mode (fst (replay_report_events 9999%Z 1%Z f10_witness)) = true.
+Proof. vm_compute. auto. Qed.
+
+(* non-vacuity of C18_stream_ok_finished: a finished report with a failed test, a skipped test, a setup and a nested suite *)
+Definition finished_witness : report :=
+  let mt n := mkMeta [n]%N [n]%N [] [] [] in
+  let stp := mkStep [100]%N (Some 1003%Z) (Some 1005%Z) [LLog s_error [109]%N 1004%Z] in
+  mkReport [82]%N [] (Some 1000%Z) (Some 2000%Z) None 2 None (Some (mkResult (Some 1900%Z) (Some 1901%Z) (Some s_passed) None []))
+    [SuiteResult (mt 115%N) (Some 1001%Z) (Some 1800%Z) (Some (mkResult (Some 1001%Z) (Some 1002%Z) (Some s_passed) None [])) None
+       [mkTest (mt 116%N) (mkResult (Some 1002%Z) (Some 1006%Z) (Some s_failed) None [stp]);
+        mkTest (mt 117%N) (mkResult (Some 1007%Z) (Some 1007%Z) (Some s_skipped) (Some [120]%N) [])]
+       [SuiteResult (mt 118%N) (Some 1100%Z) (Some 1200%Z) None None [mkTest (mt 116%N) (mkResult (Some 1101%Z) (Some 1102%Z) (Some s_passed) None [])] []]].
+Example C18_witness_finished :
+  replayable finished_witness = true /\ finished finished_witness = true /\
+  sequential_ok finished_replay_mode (fst (replay_report_events 9999%Z 1%Z finished_witness)) = true /\
+  stream_ok live_mode (fst (replay_report_events 9999%Z 1%Z finished_witness)) = false.
 Proof. vm_compute. auto. Qed.
